@@ -55,3 +55,5 @@ def run(ctx):
                   'a couple can be selected several times (dynprog([(a,3),(b,4)],6) returns [a,a], which is not a sub-collection)',
                   ctx.where(KN, 'dynprog'))
     ctx.guard('dynprog reuse', reuse)
+
+    dependencies(ctx, ['crysp/utils/knapsack.py', 'crysp/utils/perms.py'], 'C20')
